@@ -112,6 +112,8 @@ impl ContinuityStreamCache {
             let _ = fs::create_dir_all(parent);
         }
 
+        #[cfg(rip_verif)]
+        rip_kernel::verif::point("cache.append.open");
         let Ok(file) = OpenOptions::new().create(true).append(true).open(&path) else {
             return;
         };
@@ -130,9 +132,13 @@ impl ContinuityStreamCache {
         if writer.write_all(b"\n").is_err() {
             return;
         }
+        #[cfg(rip_verif)]
+        rip_kernel::verif::point("cache.append.flush");
         if writer.flush().is_err() {
             return;
         }
+        #[cfg(rip_verif)]
+        rip_kernel::verif::point("cache.append.indexes");
 
         // Best-effort indexes (rebuildable caches) to avoid full sidecar scans.
         if event.seq.is_multiple_of(SEEK_INDEX_STRIDE_EVENTS_V1) {
@@ -151,9 +157,13 @@ impl ContinuityStreamCache {
         }
 
         // Additional cache: messages+runs-only sidecar + indexes.
+        #[cfg(rip_verif)]
+        rip_kernel::verif::point("cache.append.mr");
         self.append_messages_runs_best_effort_v1(event);
 
         // Additional cache: compaction checkpoints only (summary selection).
+        #[cfg(rip_verif)]
+        rip_kernel::verif::point("cache.append.comp");
         self.append_compaction_checkpoints_best_effort_v1(event);
     }
 
@@ -163,6 +173,8 @@ impl ContinuityStreamCache {
             let _ = fs::create_dir_all(parent);
         }
 
+        #[cfg(rip_verif)]
+        rip_kernel::verif::point("cache.rebuild.create");
         let Ok(file) = File::create(&path) else {
             return;
         };
@@ -181,12 +193,22 @@ impl ContinuityStreamCache {
             let _ = writer.write_all(b"\n");
             offset = offset.saturating_add(line.len() as u64 + 1);
         }
+        #[cfg(rip_verif)]
+        rip_kernel::verif::point("cache.rebuild.flush");
         let _ = writer.flush();
 
+        #[cfg(rip_verif)]
+        rip_kernel::verif::point("cache.rebuild.indexes");
         let _ = index_builder.write_best_effort(&self.dir, continuity_id);
 
+        #[cfg(rip_verif)]
+        rip_kernel::verif::point("cache.rebuild.mr");
         self.rebuild_messages_runs_best_effort_v1(continuity_id, events);
+        #[cfg(rip_verif)]
+        rip_kernel::verif::point("cache.rebuild.comp");
         self.rebuild_compaction_checkpoints_best_effort_v1(continuity_id, events);
+        #[cfg(rip_verif)]
+        rip_kernel::verif::point("cache.rebuild.done");
     }
 
     fn append_messages_runs_best_effort_v1(&self, event: &Event) {
@@ -506,6 +528,8 @@ impl ContinuityStreamCache {
     /// Any validation/parsing error is surfaced via `Err` so callers can fall back to the truth log.
     pub(crate) fn try_replay(&self, continuity_id: &str) -> io::Result<Option<Vec<Event>>> {
         let path = self.path_for(continuity_id);
+        #[cfg(rip_verif)]
+        rip_kernel::verif::point("cache.try_replay.open");
         let file = match File::open(&path) {
             Ok(file) => file,
             Err(err) if err.kind() == io::ErrorKind::NotFound => return Ok(None),
